@@ -27,11 +27,14 @@
      c09_slots_exclusive         model sanity: live accessors never share a slot, an operation in progress belongs to
                                  the handle's owner
      c09_memory_order_obligations, c09_tick_*, c09_idle_is_max    regenerated orders / constants
-   Store-buffer half of the quantifier: c09_tso_* below are about an explicit TSO machine for the one-slot
-   skeleton only (see EP/EPTso.v); the composition with the full algorithm is not mechanised (partial). *)
+   Store-buffer half of the quantifier (PARTIAL): c09_tso_entry_fence_skeleton / c09_tso_without_fence_refuted are
+   about an explicit store-buffer machine for the one-slot skeleton only (EP/EPTsoModel.v, all schedules incl.
+   buffer flushes, one reader, one writer; x86 branch of tick = draining RMW); the composition of that skeleton with
+   the full algorithm (many slots/readers, nesting, allocator) and the non-x86 tick branch are covered only by
+   c09_memory_order_obligations on the regenerated site table, not mechanised. *)
 From Coq Require Import ZArith List Bool.
 Require Import Verif.Base.Atomics Verif.Gen.Gen_epoch Verif.Conc.Machine Verif.EP.EPModel Verif.EP.EPBase Verif.EP.EPInvB
-               Verif.EP.EPProofs.
+               Verif.EP.EPProofs Verif.EP.EPTsoModel Verif.EP.EPTso.
 Import ListNotations.
 Local Open Scope Z_scope.
 
@@ -101,6 +104,20 @@ Theorem c09_tick_returns_new_version : tick_ret = tick_inc /\ tick_inc = 1.
 Proof. exact ep_tick_spec. Qed.
 Theorem c09_idle_is_max : SLOT_IDLE = 2 ^ 64 - 1 /\ lwm_init = SLOT_IDLE /\ unlock_value = SLOT_IDLE.
 Proof. exact ep_idle_spec. Qed.
+
+(* store-buffer half, one-slot skeleton (EP/EPTsoModel.v): reader = load version; store slot; FENCE; load cell,
+   writer = store cell; RMW tick; load slot, store buffers flushed by the memory system at arbitrary moments.
+   entry_fence = 'the regenerated site table of Epoch::lock has a seq_cst fence after the slot store'.
+   With the fence, under every schedule, it never happens that the reader got the old object while the writer's
+   scan allows the reclaim; without the fence it does happen. *)
+Theorem c09_tso_entry_fence_skeleton : forall sch, tso_bad (run tso (tso_step entry_fence) tso_init sch) = false.
+Proof. exact tso_fence_safe. Qed.
+Print Assumptions c09_tso_entry_fence_skeleton.
+Theorem c09_tso_without_fence_refuted : exists sch, tso_bad (run tso (tso_step false) tso_init sch) = true.
+Proof. exact tso_nofence_refuted. Qed.
+Print Assumptions c09_tso_without_fence_refuted.
+Example c09_tso_finishes : exists sch, let s := run tso (tso_step entry_fence) tso_init sch in pc_r s = 4%nat /\ pc_w s = 3%nat.
+Proof. exact tso_fence_finishes. Qed.
 
 (* non-vacuity: a well-formed initial allocator; a reachable state with a reader holding object 0 inside its region
    while a collector that retired (0, tick 1) is scanning *)
